@@ -604,6 +604,7 @@ func executeC05(s *engine.Script, o *engine.Outcome) {
 				"message %d (%s, identity sig type %d, faults %v): Verify succeeded but %s", op.N[0], m.kind, m.idSig, mm.faults, r3.Why)
 			o.Notes[fmt.Sprintf("msg%d_delivered_hex", op.N[0])] = fmt.Sprintf("%x", mm.raw)
 		}
+		o.Tag("(structure, signing types, faults applied, parsed, accepted)", fmt.Sprintf("%s/%s/%v/%v/%v", m.kind, sigLabel, uniq(append([]string(nil), m.faults...)), parsed, accepted))
 		o.FP.Step("msg", i, m.kind, len(m.raw), parsed, accepted, ref.OK)
 		recorded = append(recorded, m)
 	}
@@ -748,6 +749,7 @@ func executeC06(s *engine.Script, o *engine.Outcome) {
 			}
 			o.Violate("C06/"+fail+"/"+feat, "op %d %s: %s (shape %s)", i, sh.Kind, detail, describe(sh))
 		}
+		o.Tag("(constructor, key types, has options, has offline block)", fmt.Sprintf("%s/%v/%v", c06Label(sh), len(sh.Opts) > 0, sh.Offline != nil))
 		o.FP.Step("construct", i, sh.Kind, fail)
 	}
 }
